@@ -57,6 +57,9 @@ func runC09(r *Run) {
 	c09R6(r, pf, mf)
 
 	r.NilArgsRule("C09.R7", "tls")
+
+	r.Rule("C09.R8")
+	c09FreshVector(r)
 }
 
 // ---- R1: one offset-relative base ------------------------------------------------------
